@@ -279,7 +279,7 @@ theorem C13_run_unexpected_peg (ok : ScanOK R.E m len) (hp : PassOK R.E) {lx : L
 def oneScan : Nat → Metrics → Pos → Option (Tok × Pos) × Nat := fun s _ p =>
   if p.byte = 0 then (some (⟨0, 0⟩, ⟨1, 0, 1⟩), s) else (none, s)
 
-def oneEnv : RunEnv := ⟨⟨oneScan, passesMask⟩, []⟩
+def oneEnv : RunEnv := ⟨⟨oneScan, passesMask, fun _ b => ⟨b, 0, b⟩⟩, []⟩
 
 def oneP (p : Pos) : Prop := p = Pos.zero ∨ p = ⟨1, 0, 1⟩
 
